@@ -194,16 +194,22 @@ def do_batch(batch: list[dict]) -> dict:
             os.makedirs(os.path.dirname(p), exist_ok=True)
             with open(p, "w") as f:
                 f.write(text)
+        # owned clock: every file has its own, fixed mtime (two files of equal size must not look alike to the
+        # mtime+size shortcut, which is mypy's documented trust in the file system, not an option effect)
+        for k, rel in enumerate(sorted(prog["files"])):
+            mt = 1_600_000_000 + 10 * k
+            os.utime(os.path.join(root, "tmp", rel), (mt, mt))
         for extra_rel, extra_text in prog.get("root_files", {}).items():
             with open(os.path.join(root, extra_rel), "w") as f:
                 f.write(extra_text)
         cold_memo: dict[tuple, dict] = {}
+        target = prog.get("target", "tmp/main.py")
 
         def cold(args: list[str]) -> dict:
             k = tuple(args)
             if k not in cold_memo:
                 out["runs"] += 1
-                cold_memo[k] = run_cli(root, [*args, "--cache-dir", os.devnull, "tmp/main.py"])
+                cold_memo[k] = run_cli(root, [*args, "--cache-dir", os.devnull, target])
             return cold_memo[k]
 
         n_cache = 0
@@ -215,7 +221,7 @@ def do_batch(batch: list[dict]) -> dict:
             rs = []
             for args in seq:
                 out["runs"] += 1
-                rs.append(run_cli(root, [*args, "--cache-dir", cd, "tmp/main.py"]))
+                rs.append(run_cli(root, [*args, "--cache-dir", cd, target]))
             shutil.rmtree(cd, ignore_errors=True)
             return rs
 
@@ -252,7 +258,7 @@ def do_batch(batch: list[dict]) -> dict:
                                            "args": seq, "last_stdout": last["stdout"].splitlines()[:3]})
                 if not same(last, expect) or crashed(last):
                     out["violations"].append({
-                        "signature": f"{label}|{direction}",
+                        "signature": prog.get("sig_map", {}).get(label) or f"{label}|{direction}",
                         "what": f"{prog['pid']}: history {direction} of {label}: warm={last['stdout'].splitlines()[:3]} "
                                 f"status={last['status']} cold={expect['stdout'].splitlines()[:3]} status={expect['status']}",
                         "detail": {"program": prog, "label": label, "direction": direction, "seq": seq,
@@ -417,9 +423,67 @@ def programs_table_sweep(ctx: Ctx, table: list[str]) -> list[dict]:
     return progs
 
 
+FOLLOW_VALUES = ["normal", "silent", "skip", "error"]
+FOLLOW_PROG = {
+    "main.py": "import foo  # type: ignore\nimport bar\nimport pkg.sub\nfrom pkg2 import sub2\nimport pkg3.deep.leaf\n"
+               "reveal_type(bar.y)\nreveal_type(pkg.sub.z)\nreveal_type(sub2.w)\nreveal_type(pkg3.deep.leaf.q)\n",
+    "foo.py": "x: int = ''\n",
+    "bar.py": "import baz\ny: int = ''\nreveal_type(baz.b)\n",
+    "baz.py": "b: int = ''\n",
+    "pkg/__init__.py": "p: int = ''\n", "pkg/sub.py": "z: int = ''\n",
+    "pkg2/__init__.py": "p2: int = ''\n", "pkg2/sub2.py": "w: int = ''\n",
+    "pkg3/__init__.py": "", "pkg3/deep/__init__.py": "d: int = ''\n", "pkg3/deep/leaf.py": "q: int = ''\n",
+}
+FOLLOW_MODULES = ["foo", "bar", "baz", "pkg", "pkg.sub", "pkg2", "pkg2.sub2", "pkg3.deep", "pkg3.deep.leaf", "pkg3.*"]
+
+
+def programs_value_options(ctx: Ctx) -> list[dict]:
+    """Value-carrying options that decide WHICH modules are part of the run, through every spelling:
+    follow_imports globally and per module (importer with `# type: ignore`, plain import, import of an import,
+    package and submodule, ancestor package) for every ordered pair of values; the same with a SUBMODULE given on
+    the command line (its ancestor package is then subject to follow_imports); and --shadow-file for a shadow
+    file of the same size and of a different size."""
+    progs = []
+    pairs = []
+    root_files = {}
+    vals = FOLLOW_VALUES
+    for i, v1 in enumerate(vals):
+        for v2 in vals[i + 1:]:
+            pairs.append((f"--follow-imports={v1}->{v2}", ["--follow-imports", v1], ["--follow-imports", v2]))
+            for mod in FOLLOW_MODULES:
+                tag = mod.replace("*", "STAR")
+                for v in (v1, v2):
+                    root_files[f"fi_{tag}_{v}.ini"] = f"[mypy]\n[mypy-{mod}]\nfollow_imports = {v}\n"
+                pairs.append((f"follow_imports[{mod}]={v1}->{v2}", ["--config-file", f"fi_{tag}_{v1}.ini"],
+                              ["--config-file", f"fi_{tag}_{v2}.ini"]))
+    # cause-level signatures for this lane: which module's follow_imports, and whether `error` is one of the two
+    # values (the history direction and the other value do not change the cause)
+    sig_map = {}
+    for label, _a, _b in pairs:
+        head, _, vals_ = label.partition("=")
+        v1, _, v2 = vals_.partition("->")
+        sig_map[label] = f"{head}:{'to/from error' if 'error' in (v1, v2) else 'between ' + v1 + ' and ' + v2}"
+    progs.append({"pid": "follow:main", "files": FOLLOW_PROG, "pairs": pairs, "three_step": ctx.thorough,
+                  "root_files": root_files, "sig_map": sig_map})
+    for target in ("pkg/sub.py", "pkg3/deep/leaf.py"):
+        progs.append({"pid": f"follow:{target}", "files": FOLLOW_PROG, "pairs": pairs, "three_step": ctx.thorough,
+                      "root_files": root_files, "target": f"tmp/{target}", "sig_map": sig_map})
+    body = "x: int = 0\ndef f(a: int) -> int:\n    return a\n"
+    same_size = body.replace("x: int = 0", "x: str = 0")
+    other_size = body + "y: str = f('')\n"
+    sh_files = {"main.py": "import a\nreveal_type(a.x)\n", "a.py": body, "sh_same.py": same_size, "sh_other.py": other_size}
+    sh = [("--shadow-file(same size)", [], ["--shadow-file", "tmp/a.py", "tmp/sh_same.py"]),
+          ("--shadow-file(other size)", [], ["--shadow-file", "tmp/a.py", "tmp/sh_other.py"]),
+          ("--shadow-file(same->other)", ["--shadow-file", "tmp/a.py", "tmp/sh_same.py"],
+           ["--shadow-file", "tmp/a.py", "tmp/sh_other.py"])]
+    progs.append({"pid": "shadow:import", "files": sh_files, "pairs": sh, "three_step": True})
+    progs.append({"pid": "shadow:target", "files": sh_files, "pairs": sh, "three_step": True, "target": "tmp/a.py"})
+    return progs
+
+
 def run(ctx: Ctx) -> Result:
     table, skipped = flag_table()
-    progs = programs_from_corpus(ctx, table) + programs_table_sweep(ctx, table)
+    progs = programs_from_corpus(ctx, table) + programs_table_sweep(ctx, table) + programs_value_options(ctx)
     # split big sweep programs so the pool stays balanced
     items: list[list[dict]] = []
     for p in progs:
